@@ -877,6 +877,8 @@ def _array_decoder(repo: Repo, arr: ClassInfo, sb: ast.FunctionDef) -> Tuple[str
     if not fresh:
         return "?", f"decoded elements are appended to {dest}; no `self.values = []` before the loop"
     item = packed.resolve_names(appends[0].args[0], ldefs)
+    if isinstance(item, ast.IfExp) and all(isinstance(b_, ast.Call) and norm(b_.func) == "self.python_type" and len(b_.args) == 1 for b_ in (item.body, item.orelse)):
+        item = item.body          # python_type(fields[0]) if len(fields) == 1 else python_type(fields): converted on both branches
     if not (isinstance(item, ast.Call) and norm(item.func) == "self.python_type" and len(item.args) == 1):
         return "bad", f"decoded elements are stored as {norm(item)[:60]} without the python_type conversion"
     return "ok", ""
@@ -901,22 +903,62 @@ def struct_field_orders(repo: Repo, k: ClassInfo) -> Tuple[Optional[List[str]], 
                     and not n.generators[0].ifs and not n.generators[1].ifs and isinstance(n.generators[1].iter, (ast.Tuple, ast.List)) \
                     and all(isinstance(e, ast.Attribute) and norm(e.value) == n.generators[0].target.id for e in n.generators[1].iter.elts):
                 order_w = [e.attr for e in n.generators[1].iter.elts]
-            # map(attrgetter("min", "max", …), self.values): the fields in the order the getter names them
-            if isinstance(n, ast.Call) and norm(n.func) == "map" and len(n.args) == 2 and order_w is None:
-                g_ = n.args[0]
+            # map(attrgetter("min", "max", …), self.values) / G(x) for each x of self.values: the fields in the order the getter names them
+            if isinstance(n, ast.Call) and order_w is None and (
+                    (norm(n.func) == "map" and len(n.args) == 2) or
+                    (len(n.args) == 1 and isinstance(n.args[0], ast.Name) and isinstance(n.func, (ast.Name, ast.Attribute)))):
+                g_ = n.args[0] if norm(n.func) == "map" else n.func
+                owner_k = ev[0]
                 if isinstance(g_, (ast.Name, ast.Attribute)):
-                    g_ = inline.definition_of(repo, ev[0], ev[0].file, g_) or g_
+                    d_ = None
+                    for k_try in [ev[0]] + [x for x in [getattr(ev[0], "outer", None)] if x is not None]:
+                        try:
+                            d_ = inline.definition_of(repo, k_try, ev[0].file, g_)
+                        except Exception:
+                            d_ = None
+                        if d_ is not None:
+                            break
+                    if d_ is None and isinstance(g_, ast.Attribute) and isinstance(g_.value, ast.Name) and g_.value.id == "self":
+                        # a getter stored on the enclosing class (`_mapping_record = attrgetter(...)` next to the nested array class)
+                        for k2 in repo.all_classes():
+                            if k2.file is ev[0].file and g_.attr in k2.assigns:
+                                d_, owner_k = k2.assigns[g_.attr], k2
+                                break
+                    g_ = d_ or g_
                 if isinstance(g_, ast.Call) and norm(g_.func) == "staticmethod" and len(g_.args) == 1:
                     g_ = g_.args[0]
-                if isinstance(g_, ast.Call) and norm(g_.func) in ("attrgetter", "operator.attrgetter") and len(g_.args) > 1 \
-                        and all(isinstance(a, ast.Constant) and isinstance(a.value, str) and "." not in a.value for a in g_.args):
-                    order_w = [a.value for a in g_.args]
+                if isinstance(g_, ast.Call) and norm(g_.func) in ("attrgetter", "operator.attrgetter"):
+                    names_ = None
+                    if len(g_.args) > 1 and all(isinstance(a, ast.Constant) and isinstance(a.value, str) and "." not in a.value for a in g_.args):
+                        names_ = [a.value for a in g_.args]
+                    elif len(g_.args) == 1 and isinstance(g_.args[0], ast.Starred):
+                        for scope in (owner_k, k, None):
+                            try:
+                                v_ = repo.fold(g_.args[0].value, ci=scope, sf=ev[0].file)
+                            except Exception:
+                                v_ = None
+                            if isinstance(v_, (tuple, list)) and v_ and all(isinstance(x, str) for x in v_):
+                                names_ = list(v_)
+                                break
+                    if names_:
+                        order_w = names_
     ecls = None
     if pt and pt[1] == "property" and pt[2][0] is not None:
         for st in pt[2][0].body:
             if isinstance(st, ast.Return):
                 ecls = repo.class_of_expr(st.value, k, k.file)
     if ecls is not None and "__init__" in ecls.methods:
+        # for field, item in zip(FIELDS, value[:8]): setattr(self, field, item)
+        for lp in [x for x in walk_no_nested(ecls.methods["__init__"]) if isinstance(x, ast.For)]:
+            if isinstance(lp.iter, ast.Call) and norm(lp.iter.func) == "zip" and len(lp.iter.args) == 2 and isinstance(lp.target, ast.Tuple) and len(lp.target.elts) == 2 \
+                    and any(isinstance(c_, ast.Call) and norm(c_.func) == "setattr" and len(c_.args) == 3 and norm(c_.args[0]) == "self"
+                            and norm(c_.args[1]) == norm(lp.target.elts[0]) and norm(c_.args[2]) == norm(lp.target.elts[1]) for c_ in ast.walk(lp)):
+                try:
+                    v_ = repo.fold(lp.iter.args[0], ci=ecls, sf=ecls.file)
+                except Exception:
+                    v_ = None
+                if isinstance(v_, (tuple, list)) and all(isinstance(x, str) for x in v_):
+                    order_r = list(v_)
         for n in walk_no_nested(ecls.methods["__init__"]):
             if isinstance(n, ast.Assign) and isinstance(n.targets[0], ast.Tuple):
                 order_r = [norm(e).split(".")[-1] for e in n.targets[0].elts]
@@ -1183,7 +1225,9 @@ def drawn_waveforms(repo: Repo, rep, P: str):
     bodies = []
     for cname, mod in (("Generator", "rv.modules.generator"), ("AnalogGenerator", "rv.modules.analoggenerator")):
         ci = repo.cls(cname, module=mod)
-        fn = inline.normalize(repo, ci, repo.own_method(ci, "load_drawn_waveform", raw=True), aliases=True)
+        dwk = repo.cls("DrawnWaveformChunk", module="rv.chunks.drawnwaveform")
+        fn = inline.normalize(repo, ci, repo.own_method(ci, "load_drawn_waveform", raw=True), aliases=True,
+                              receivers={"self.drawn_waveform": dwk})        # a private loader method of the chunk object is read through
         bodies.append((ci, fn, norm(ast.Module(body=[x for x in stmts_of(fn) if not (isinstance(x, ast.Expr) and isinstance(x.value, ast.Constant))],
                                                type_ignores=[]))))
         con = f"{ci.file.rel}:{cname}.load_drawn_waveform"
